@@ -40,8 +40,7 @@ class MultiVector:
             for key in list(items.keys()):
                 if key not in algebra.canon2bin:
                     target, swaps = algebra._blade2canon(key)
-                    if swaps % 2:
-                        items[target] = - items.pop(key)
+                    items[target] = - items.pop(key) if swaps % 2 else items.pop(key)
 
             keys, values = zip(*((blade, items[blade]) for blade in algebra.canon2bin if blade in items))
             values = list(values)
